@@ -2727,6 +2727,15 @@ XPathProcessorImpl::QName()
         nextToken();
 
         consumeExpected(XalanUnicode::charColon);
+
+        // The local part of a QName is an NCName ("$q:*" is not a
+        // variable reference).
+        if (XalanQName::isValidNCName(m_token) == false)
+        {
+            error(
+                XalanMessages::IsNotValidQName_1Param,
+                m_token);
+        }
     }
 
     m_expression->pushCurrentTokenOnOpCodeMap();
